@@ -3,6 +3,7 @@ package exporter
 import (
 	"encoding/json"
 	"errors"
+	"github.com/anz-bank/sysl/pkg/utils"
 	"sort"
 	"strconv"
 	"strings"
@@ -92,7 +93,10 @@ func (s *OpenAPI3Exporter) GenerateOpenAPI3(app *syslwrapper.App) (*openapi3.T, 
 	for k, v := range app.Types {
 		spec.Components.Schemas[k] = s.exportType(v)
 	}
-	for _, v := range app.Endpoints {
+	// in name order: two endpoints can map to the same operation, and the one
+	// that stays must not depend on map iteration
+	for _, epName := range utils.OrderedKeys(app.Endpoints) {
+		v := app.Endpoints[epName]
 		var method, path string
 		epPath := strings.Split(v.Path, " ")
 		if len(epPath) > 1 {
@@ -144,7 +148,8 @@ func (s *OpenAPI3Exporter) GenerateOpenAPI3(app *syslwrapper.App) (*openapi3.T, 
 		}
 
 		// Map Responses
-		for _, value := range v.Response {
+		for _, respName := range utils.OrderedKeys(v.Response) {
+			value := v.Response[respName]
 			response := openapi3.NewResponse()
 			schemaRef := s.exportType(value.Type)
 			response.WithDescription(value.Name)
